@@ -102,7 +102,7 @@ def main():
   A["lists"] = []
   consts, tabs = recipe.tla_constants(A, 1 if args.tier == "quick" else 2, ["wcfg", "noqcfg"])
   r = tlc.run("C10_recipe", "Recipe", consts, invariants=["ScopesMatchAlike", "SelectionAgrees"], view="View", workers=16, timeout=3600)
-  if r.error or r.rc not in (0, 12):
+  if not r.violated and (r.error or r.rc not in (0, 12)):
     chk.machinery("TLC failed: %s" % r.out[-800:])
   elif r.violated:
     bad = [(A["regexes"][rx], a, b) for (_, a, b) in all_pairs for rx in A["regexes"]
